@@ -97,7 +97,8 @@ def profile_for(consts, variant=0, dim=3):
     }
     g = lambda k: sets[consts[k].replace("<- ", "")]
     return {"keys": g("Keys"), "names": g("Names"), "ids": g("Ids"), "mkeys": g("MKeys"), "gnodes": g("GNodes"),
-            "rels": g("Rels"), "gname": consts["GName"].strip('"'), "dim": dim, "variant": variant}
+            "rels": g("Rels"), "gname": consts["GName"].strip('"'), "dim": dim, "variant": variant,
+            "no_final_restarts": consts.get("CoreVacuum") == "TRUE"}
 
 
 def model_check(chk, name, consts, workers=None, timeout=900, spec=None):
@@ -443,6 +444,19 @@ def run(prop, tier):
         for i, b in enumerate(br):
             b["id"] = "rt%d" % i
         plans.append((rt, br))
+    if prop == "C10":
+        # core.DB.VacuumGraph with EVERY horizon the history offers (GraphVacuumAt; not an engine call, not journaled, so no
+        # restarts in this plan): a horizon inside the lifetime of a soft-deleted or superseded version keeps that version
+        # in the forward AND the reverse view
+        cv = dict(SEEDED_G, CoreVacuum="TRUE", MaxOps=2 if quick else 3)
+        # (transition corpus: a vacuum that must remove nothing leaves the state where it was and is in no first-found history)
+        ccv = corpus(chk, "MC_Kektor_corevacuum_trans", cv, workers=8, timeout=3000, spec="SpecCorpusT")
+        bcv, _ = vlib.behaviours_from_corpus(ccv, max_behaviours=150 if quick else 8000, rng=rng,
+                                             need=lambda ops: any(o.get("op") == "GraphVacuumAt" for o in ops),
+                                             stratum=lambda ops: tuple((o.get("op"), o.get("cutoff")) for o in ops[7:]))
+        for i, b in enumerate(bcv):
+            b["id"] = "cv%d" % i
+        plans.append((cv, bcv))
     if prop in ("C10", "C12"):
         # hydration: VGetConnections returns live vectors only and soft-unlinks (journaled) the targets that are none
         hy = dict(HYDRATE, MaxOps=2 if quick else 3)
